@@ -234,6 +234,7 @@ pub fn catalogue(thorough: bool) -> Vec<Kind> {
             for (m, a) in VEC_SHAPES {
                 c.push(VecObserve { t: ty, m: *m, a: *a, filler: None });
                 c.push(VecObserve { t: ty, m: *m, a: *a, filler: Some(filler(ty)) });
+                c.push(VecFlags { t: ty, m: *m, a: *a });
                 for n in 0..=*m {
                     c.push(VecTrim { t: ty, m: *m, a: *a, n });
                 }
@@ -245,6 +246,8 @@ pub fn catalogue(thorough: bool) -> Vec<Kind> {
             c.push(VecObserve { t: ty, m: 8, a: 4, filler: None });
             c.push(VecObserve { t: ty, m: 6, a: 3, filler: Some(filler(ty)) });
             c.push(VecObserve { t: ty, m: 4, a: 1, filler: None });
+            c.push(VecFlags { t: ty, m: 8, a: 4 });
+            c.push(VecFlags { t: ty, m: 6, a: 2 });
             c.push(VecTrim { t: ty, m: 8, a: 4, n: 1 });
             c.push(VecTrim { t: ty, m: 8, a: 4, n: 5 });
             c.push(VecTrim { t: ty, m: 6, a: 3, n: 3 });
@@ -586,7 +589,7 @@ pub fn inputs_for(kind: &Kind, thorough: bool, rng: &mut ChaCha8Rng) -> Vec<Vec<
         }
         Convert { .. } => unreachable!(),
         ConvertUnsafeNY => one_n(vec![F::ZERO, f(255), f(7), f(128), F::ONE]),
-        VecObserve { t, m, a, .. } | VecResize { t, m, a, .. } => {
+        VecObserve { t, m, a, .. } | VecFlags { t, m, a } | VecResize { t, m, a, .. } => {
             let mut lens = vec![0, *m, 1, *a, a + 1, m - 1, m - a];
             lens.retain(|l| l <= m);
             lens.dedup();
